@@ -210,6 +210,23 @@ func c12Seq(tier string, seed int64, idx int, scratch string) rt.CaseResult {
 	// files that are written much faster than they are stored: the pipe's buffer grows while
 	// the storing side reads from it (8 MiB in writes of about 1 MiB, with empty and 1-byte
 	// writes in between)
+	if mode == dbx.Grpc {
+		// an upload of 17 MiB and one of 33 MiB through the server, in writes of 1 MiB
+		for i, total := range []int{17 << 20, 33<<20 + 5} {
+			var seq []int
+			for sum := 0; sum < total; sum += 1 << 20 {
+				seq = append(seq, min(1<<20, total-sum))
+			}
+			c.Evals++
+			if !c12WriteFile(&c, env, nil, "bigup", fmt.Sprintf("c%d-up%d", idx, i), seq, false, nil, false, refmodel.OK, "upload-of-tens-of-MiB") {
+				return c
+			}
+			c.AddDistinct(fmt.Sprintf("grpc/upload-%dMiB/ok", total>>20))
+			if idx%8 != 3 {
+				break // the larger one in one case of eight
+			}
+		}
+	}
 	if mode == dbx.Inline {
 		for i := 0; i < tierN(tier, 6, 10); i++ {
 			var seq []int
